@@ -77,7 +77,7 @@ SCRIPTS_MORE = [
     [S(3, 1), S(2, 2), S(1, 3), T, T, T],
     [S(2, 1), C(2), T, C(1)],
     [S(1, 1), T, S(1, 2), S(3, 3), C(3)],
-    [S(2, 1), S(2, 2), C(1), C(2), T],
+    [S(2, 1), S(2, 2), C(1), T, C(2)],
 ]
 ACTIONS = ["CBegin", "CStop", "WStart", "WLock1", "WRelock", "WClock", "WExit"]
 
